@@ -16,6 +16,7 @@ import (
 
 	"github.com/99designs/gqlgen/graphql"
 	"github.com/vektah/gqlparser/v2/ast"
+	"github.com/vektah/gqlparser/v2/gqlerror"
 
 	"verifsim/core"
 	"verifsim/parsers"
@@ -63,6 +64,11 @@ type Uni struct {
 	// PanicsThrown counts the panics raised by resolvers and the directive on behalf of the plan.
 	PanicsThrown atomic.Int32
 
+	// sentinel: failing resolvers at some positions (plan.SharedErr) return ONE error value
+	// shared by all of them (var ErrNotFound = gqlerror.Errorf(...) as user code writes it),
+	// fresh per server so that runs stay independent
+	sentinel *gqlerror.Error
+
 	rmu       sync.Mutex
 	raised    []refexec.Err
 	typedNils []string // response paths at which a typed nil pointer was delivered
@@ -93,6 +99,7 @@ func nilable(t reflect.Type) bool {
 // New builds the executable schema of variant v with every resolver bound to the plan.
 func New(w *core.World, v *Variant, plan *refexec.Plan) *Uni {
 	u := &Uni{W: w, V: v, Plan: plan, Park: true, bind: map[string]refexec.Binding{}, retType: map[string]reflect.Type{}}
+	u.sentinel = gqlerror.Errorf("S:shared")
 	u.Stub = v.NewStub()
 	u.ES = v.Build(u.Stub, u.Guard, u.Stamp)
 	u.Schema = u.ES.Schema()
@@ -186,6 +193,10 @@ func (u *Uni) method(ctx context.Context, typ, field string) (*string, error) {
 	}
 	switch u.Plan.Resolver(path, true) {
 	case refexec.KError:
+		if u.Plan.SharedErr(path) {
+			u.raise(path, "S:shared")
+			return nil, u.sentinel
+		}
 		u.raise(path, u.Plan.ErrMsg(path))
 		return nil, errors.New(u.Plan.ErrMsg(path))
 	case refexec.KPanic:
@@ -350,6 +361,10 @@ func (u *Uni) call(objType string, fd *ast.FieldDefinition, ft reflect.Type, arg
 	b := u.bind[objType+"."+fd.Name]
 	switch u.Plan.Resolver(path, b.Nilable) {
 	case refexec.KError:
+		if u.Plan.SharedErr(path) {
+			u.raise(path, "S:shared")
+			return retErr(ft, u.sentinel)
+		}
 		u.raise(path, u.Plan.ErrMsg(path))
 		return retErr(ft, errors.New(u.Plan.ErrMsg(path)))
 	case refexec.KPanic:
